@@ -304,13 +304,14 @@ def run_components(ctx, res, provider):
         als = []
         for _k in range(rng.choice([1, 2, 3])):
             a = C14.gen_alarm(rng)
-            a["ack"] = rng.choice([None, None, -3, 0, 2, 30])
+            a["ack"] = rng.choice([None, None, -3, 0, 2, 30, -0.5, -0.3, 0.2, 0.6])     # also between two repetitions of one alarm
             als.append(a)
+        C14.relate_alarms(rng, als)
         case = (rng.randrange(2), st, en, du, als)
         if not C14.parseable(case):
             continue
         base = true_instant(st, provider, True)
-        c_h, s_h = rng.choice([None, -30, -2, 0, 1, 26]), rng.choice([None, None, -1, 1, 30])
+        c_h, s_h = rng.choice([None, -30, -2, 0, 1, 26, -0.4, 0.3]), rng.choice([None, None, -1, 1, 30])
         moz = rng.random() < 0.5
         local = rng.random() < 0.5
         hrs = lambda h: None if h is None else base + timedelta(hours=h)     # noqa: E731
